@@ -121,6 +121,8 @@ def gen_ranges(rng, last, exist_bias=True):
             else:
                 hi = rng.choice([last + 1, last + 5, 100000])
             r = (lo, hi)
+        if r[0] > last >= 1 and rng.random() < 0.9:
+            r = (last, r[1] if r[1] == 0 or r[1] > last else 0)   # keep the entry valid: low <= lastID
         if rng.random() < 0.03:
             r = rng.choice([(-1, 0), (0, 0), (last + 1, 0), (r[0], max(0, r[0] - 1)), (0, 3)])
         rs.append(r)
@@ -137,10 +139,14 @@ def gen_scn(rng, sid, faults):
     sc.head.append("scn %s owner=1 auth=%d anon=0 ownerwant=%d ownergiven=255" % (sid, auth, ow))
     for i in range(1, n + 1):
         sc.head.append("user %d acc=%d" % (i, rng.choice([47, 47, 127, 111])))
+    can_write = {1: True}            # generator's belief, used only to aim ids at existing messages
     for i in range(2, n + 1):
         if rng.random() < 0.85:
             want, given = rng.choice(POP)
             sc.head.append("subrow %d want=%d given=%d" % (i, want, given))
+            can_write[i] = bool(want & given & 4)
+        else:
+            can_write[i] = bool(auth & 4)
     s = 0
     for i in range(1, n + 1):
         for _ in range(rng.choice([1, 1, 1, 2])):
@@ -150,16 +156,20 @@ def gen_scn(rng, sid, faults):
     sids = sorted(sc.sessions)
     owner_sids = [x for x in sids if sc.sessions[x] == 1]
     ops = []
+    att = set()                      # sessions the generator believes attached (aims requests; not relied upon)
     for x in sids:
         if rng.random() < 0.9:
             ops.append(("N", "sub", [x, "-", 0]))
+            att.add(x)
     last = 0
     for _ in range(rng.randint(2, 6)):
-        ops.append(("N", "pub", [rng.choice(sids if rng.random() < 0.5 else owner_sids), 100 + len(ops), 0]))
-        last += 1
+        y = rng.choice(sids if rng.random() < 0.4 else owner_sids)
+        ops.append(("N", "pub", [y, 100 + len(ops), 0]))
+        if y in att and can_write[sc.sessions[y]]:
+            last += 1
     nops = rng.randint(8, 22)
     for _ in range(nops):
-        x = rng.choice(sids)
+        x = rng.choice(sorted(att)) if att and rng.random() < 0.85 else rng.choice(sids)
         r = rng.random()
         flt = "N"
         if faults and rng.random() < faults:
@@ -176,7 +186,8 @@ def gen_scn(rng, sid, faults):
             ops.append(("N", "getdel", [x, rng.choice([0, 0, 0, 1, 2, 3]), rng.choice([0, 0, 0, 1, 2, 3, 4]), rng.choice([0, 0, 0, 0, 5])]))
         elif r < 0.76:
             ops.append((flt, "pub", [x, 100 + len(ops), 0]))
-            last += 1
+            if x in att and can_write[sc.sessions[x]] and flt == "N":
+                last += 1
         elif r < 0.84:
             # permission change: the owner edits a member's given, or a member edits his own want
             if rng.random() < 0.6 and owner_sids:
@@ -186,20 +197,27 @@ def gen_scn(rng, sid, faults):
                 ops.append((flt, "setsub", [x, 0, hx(rng.choice(MODE_EDITS))]))
         elif r < 0.89:
             ops.append(("N", "leave", [x, 1 if rng.random() < 0.5 else 0]))
+            att.discard(x)
         elif r < 0.95:
-            ops.append((flt, "sub", [x, "-", 0]))
+            y = rng.choice(sids)
+            ops.append((flt, "sub", [y, "-", 0]))
+            att.add(y)
         elif r < 0.97:
             for y in sids:
                 ops.append(("N", "leave", [y, 0]))
             ops.append(("N", "unload", []))
+            att = set()
             for y in sids:
                 if rng.random() < 0.8:
                     ops.append(("N", "sub", [y, "-", 0]))
+                    att.add(y)
         else:
             ops.append(("N", "restart", []))
+            att = set()
             for y in sids:
                 if rng.random() < 0.8:
                     ops.append(("N", "sub", [y, "-", 0]))
+                    att.add(y)
     # every history ends with everybody (re)attached where possible reading history and log
     for y in sids:
         if rng.random() < 0.5:
